@@ -268,6 +268,6 @@ def strategy(draw):
 
 PHASES = [
     Phase("histories", run_case, strategy=strategy,
-          examples={"quick": 1600, "thorough": 16000}),
+          examples={"quick": 1600, "thorough": 60000}),
     Phase("n0", run_n0, enumerate=lambda tier, seed: [], tiers=()),
 ]
